@@ -147,6 +147,8 @@ def amplitudes(n, k, both_orders=True):
         else:
             env.check_eq(st.data, ref, f"|norm^4-1| <= 1e-12: state = Kronecker-placed amplitudes, untouched (n={n}, k={k})")
 
+        if n > 4:  # the 4^n-entry density matrix adds nothing beyond n = 4 (same code, same placement)
+            return
         pub = sv.StateVector.from_state_amplitudes(eigenstates=eig, amplitudes=amps)
         env.check_eq(pub.data, st.data, "public from_state_amplitudes (pulser validation + delegation) gives the same state")
 
@@ -346,7 +348,10 @@ def dm_normalize(n):
             env.fail("DensityMatrix._normalize raises instead of normalising", str(e)[:120])
             return
         d = tr - 1.0
-        close = abs2(d) <= (1e-8 + 1e-5) ** 2  # torch.allclose defaults against the value 1
+        from fractions import Fraction
+
+        tol = Fraction(1, 10**8) + Fraction(1, 10**5)  # torch.allclose defaults against the value 1, exact
+        close = abs2(d) <= (tol * tol if env.mode == "sym" else float(tol * tol))
         if env.mutant("never_normalise"):
             close = True
         if close:
@@ -617,7 +622,9 @@ META = {
         "inner/norm/overlap/sum/scale/apply/expect/matmul against sums over entries; operands are checked unchanged."
     ),
     "outside": [
-        "N > 3 for operator representations and object algebra; N > 8 (N > 4 in the quick tier) for single-key amplitude dictionaries, N > 3 for several keys",
+        "N > 3 for operator representations and object algebra (N > 2 for the algebra in the quick tier); amplitude dictionaries: "
+        "N > 8 with one key, N > 4 with two keys, N > 3 with three or all keys (quick tier: N > 4 with one key, N > 2 with two); "
+        "the density matrix built from amplitudes is compared for N <= 4 only",
         "nested user-defined operator symbols such as {'X': {...}}: not reachable (operators_with_tensors is local to "
         "_from_operator_repr and holds only gg/gr/rg/rr; pulser 1.9.1 rejects other keys), torch.Tensor factors inside a TensorOp",
         "overlapping target sets between TensorOp entries (rejected by pulser's _validate_operations)",
@@ -636,7 +643,7 @@ def cases(tier):
     out = []
     # amplitudes
     if quick:
-        grid = [(1, 2), (2, 2), (2, 4), (3, 2), (4, 1)]
+        grid = [(1, 2), (2, 2), (4, 1)]
     else:
         grid = [(1, 1), (1, 2), (2, 1), (2, 2), (2, 3), (2, 4), (3, 1), (3, 2), (3, 3), (3, 8), (4, 1), (4, 2), (5, 1), (6, 1), (7, 1), (8, 1)]
     for n, k in grid:
@@ -717,7 +724,7 @@ def cases(tier):
                 deadline_s=800.0,
             )
         )
-    tgrid = [(1, 2, False), (2, 2, False), (3, 1, True)] if quick else [
+    tgrid = [(2, 2, False), (3, 1, True)] if quick else [
         (1, 1, False), (1, 3, False), (2, 1, True), (2, 2, False), (2, 3, False), (3, 1, True), (3, 2, False)
     ]
     for n, t, split in tgrid:
@@ -754,4 +761,28 @@ def cases(tier):
                 weight=20,
             )
         )
+    if quick:
+        out = _merge(out, "state_algebra_n2", "dm_overlap_n2")
+        out = _merge(out, "operator_algebra_n2", "sparse_helpers_2x2_2x2_2x2")
     return out
+
+
+def _merge(cases_, first, second):
+    """run two single-path cases in one worker process (quick tier only: start-up dominates)."""
+    a = next(c for c in cases_ if c.name == first)
+    b = next(c for c in cases_ if c.name == second)
+
+    def fn(env, fa=a.fn, fb=b.fn):
+        fa(env)
+        fb(env)
+
+    merged = Case(
+        name=f"{first}_and_{second}",
+        fn=fn,
+        covers=a.covers + [c for c in b.covers if c not in a.covers],
+        bounds={first: a.bounds, second: b.bounds},
+        canaries=a.canaries + [m for m in b.canaries if m not in a.canaries],
+        weight=a.weight + b.weight,
+        timeout_ms=max(a.timeout_ms, b.timeout_ms),
+    )
+    return [merged if c is a else c for c in cases_ if c is not b]
